@@ -888,6 +888,33 @@ pub fn run_c07(ctx: &Ctx) {
             }
         }
     }
+    // after a slow answer: the upstream answers one query only about 3 s after each
+    // transmission (so that retransmissions have gone out by then and the forwarder learns that
+    // this upstream is slow); afterwards a query whose first transmission is lost must still be
+    // retransmitted and answered, and a query over TCP as well
+    {
+        let case = ConcCase {
+            listener: 2,
+            queries: vec![
+                QSpec { delay_ms: 3000, ..plain(false, 0, 0) },
+                QSpec { send_after_s: 6, drop_mask: 1, ..plain(false, 0, 1) },
+                QSpec { send_after_s: 6, drop_mask: 3, ..plain(false, 0, 2) },
+                QSpec { send_after_s: 6, ..plain(true, 0, 3) },
+            ],
+            upstream_idle_close_ms: 0,
+        };
+        let mut out = exec_one(&prop, &case);
+        out.class("lost-transmissions-after-a-slow-answer");
+        ctx.record(prop.sub(), &case, &out);
+        if let Some(f) = out.fail {
+            if ctx.is_known(&f.sig) {
+                ctx.known_hit(&f.sig);
+            } else {
+                ctx.violation(prop.sub(), &f, &case);
+                return;
+            }
+        }
+    }
     // a reply that comes later than anybody waits for it: one TCP-path query whose upstream reply
     // takes 11.5 s (SERVFAIL or the answer, either is fine), then, once that reply has arrived on
     // the shared upstream connection, more queries that travel the same connection: each must
